@@ -110,7 +110,7 @@ def observe(args):
             leaves = [(n, type(mod).__name__) for n, mod in e.named_modules() if n and len(list(mod.children())) == 0]
             o['tree'] = sorted(leaves)
             sd = e.state_dict()
-            o['params_untouched'] = all(k in orig_params and bool(torch.equal(v, orig_params[k])) for k, v in sd.items())
+            o['params_untouched'] = all(k in orig_params and bool(torch.equal(v, orig_params[k])) for k, v in sd.items() if not k.endswith('sn_combiner.alpha'))
             o['has_combiner'] = any('sn_combiner' in n for n, _ in e.named_modules())
         # the user's model itself must not have been altered by export
         o['seed_untouched'] = all(bool(torch.equal(v, orig_params[k])) for k, v in m.state_dict().items() if not k.endswith('sn_combiner.alpha'))
